@@ -40,7 +40,7 @@ theorem translated_join_eq_model (E : Env) (s : GenP.PS) (h : s.pid ≠ 0) (st :
     (ho : s.k.oracle = some st :: rest) :
     ∃ s', GenP.join E s = some (.ret true s') ∧ flagsOf s' = ((flagsOf s).step .join).1 ∧ ((flagsOf s).step .join).2 = true ∧
       s'.exitCode = wexitstatus st ∧ s'.k.trace = s.k.trace ++ sysOf s true joinProgram ∧ s'.k.oracle = rest ∧ s'.errno = s.errno := by
-  obtain ⟨o, e, i, pid, ec, sm, stt, en, ⟨tr, orc⟩⟩ := s
+  obtain ⟨o, e, i, pid, ec, sm, ln, stt, en, ⟨tr, orc⟩⟩ := s
   simp only at h ho
   subst ho
   by_cases hi : i = 0 <;> by_cases ho : o = 0 <;> by_cases he : e = 0 <;>
@@ -54,7 +54,7 @@ theorem translated_join_failed_eq_model (E : Env) (s : GenP.PS) (h : s.pid ≠ 0
     ∃ s', GenP.join E s = some (.ret false s') ∧ flagsOf s' = ((flagsOf s).step .joinFailed).1 ∧
       ((flagsOf s).step .joinFailed).2 = false ∧ s'.pid = s.pid ∧ s'.exitCode = s.exitCode ∧
       s'.k.trace = s.k.trace ++ sysOf s false [.closeIn, .wait] := by
-  obtain ⟨o, e, i, pid, ec, sm, stt, en, ⟨tr, orc⟩⟩ := s
+  obtain ⟨o, e, i, pid, ec, sm, ln, stt, en, ⟨tr, orc⟩⟩ := s
   simp only at h ho
   rcases ho with ho | ho <;> subst ho <;> by_cases hi : i = 0 <;>
     simp [GenP.join, GenP.join_b5, GenP.join_b4, K.waitpid, K.close, h, hi, flagsOf, Proc.step, sysOf]
@@ -86,7 +86,7 @@ theorem translated_kill_eq_model (E : Env) (s : GenP.PS) :
     (s.pid ≠ 0 → ∀ rest, (s.k.oracle = none :: rest ∨ s.k.oracle = []) →
       ∃ s', GenP.kill E s = some (.ret false s') ∧ flagsOf s' = flagsOf s ∧
         s'.k.trace = s.k.trace ++ [.kill s.pid SIGKILL, .waitpid s.pid false]) := by
-  obtain ⟨o, e, i, pid, ec, sm, stt, en, ⟨tr, orc⟩⟩ := s
+  obtain ⟨o, e, i, pid, ec, sm, ln, stt, en, ⟨tr, orc⟩⟩ := s
   refine ⟨?_, ?_, ?_⟩
   · intro h; simp only at h; simp [GenP.kill, h, flagsOf, Proc.step]
   · intro h st rest ho
@@ -126,7 +126,7 @@ theorem translated_close_eq_model (E : Env) (s : GenP.PS) :
         (if bit s.streams 4 = true ∧ s.fdStdInWrite ≠ 0 then [.close s.fdStdInWrite] else []) ++
         (if bit s.streams 1 = true ∧ s.fdStdOutRead ≠ 0 then [.close s.fdStdOutRead] else []) ++
         (if bit s.streams 2 = true ∧ s.fdStdErrRead ≠ 0 then [.close s.fdStdErrRead] else []) := by
-  obtain ⟨o, e, i, pid, ec, sm, stt, en, ⟨tr, orc⟩⟩ := s
+  obtain ⟨o, e, i, pid, ec, sm, ln, stt, en, ⟨tr, orc⟩⟩ := s
   have h1 := and_pow_zero sm 0
   have h2 := and_pow_zero sm 1
   have h4 := and_pow_zero sm 2
@@ -160,6 +160,13 @@ theorem translated_exit_passes_code (E : Env) (s : GenP.PS) :
   have h1 : s.exitCode % 4294967296 = s.exitCode := Nat.mod_eq_of_lt (by omega)
   rw [h1]; simp; omega
 
+/-- `read(buffer, len)` is ONE `::read` on the stdout read end with the caller's length, `write(buffer, len)` ONE `::write` on the
+    stdin write end; both return what the kernel answers and change nothing of the object -/
+theorem translated_read2_write_one_call (E : Env) (s : GenP.PS) :
+    (∃ s', GenP.read2 E s = some (.ret s.k.answer.1 s') ∧ s'.k.trace = s.k.trace ++ [.read s.fdStdOutRead s.len] ∧ flagsOf s' = flagsOf s) ∧
+    (∃ s', GenP.write E s = some (.ret s.k.answer.1 s') ∧ s'.k.trace = s.k.trace ++ [.write s.fdStdInWrite s.len] ∧ flagsOf s' = flagsOf s) :=
+  ⟨⟨_, rfl, rfl, rfl⟩, ⟨_, rfl, rfl, rfl⟩⟩
+
 /-- `setEnvironmentVariable(name, value)` as translated is the model's function: for every environment, name and value
     the new environment and the returned Boolean are those of `Nstd.Args.setEnvironmentVariable` (an empty value removes the
     variable and reports success -- defect 0006 --, an invalid name is refused), given POSIX `setenv` / `unsetenv` -/
@@ -171,7 +178,7 @@ theorem translated_setEnvironmentVariable_eq_model (E : Env) (s : GenP.ES) :
   by_cases hv : v.isEmpty = true <;> by_cases hn : validName n = true <;> simp [hv, hn]
 
 -- the order of the system calls of join() on an object holding all three ends (descriptors 5, 6, 7; pid 42)
-example : (match GenP.join ⟨[], [], []⟩ ⟨5, 6, 7, 42, 0, 0, 0, 0, ⟨[], [some (3 * 256)]⟩⟩ with
+example : (match GenP.join ⟨[], [], []⟩ ⟨5, 6, 7, 42, 0, 0, 0, 0, 0, ⟨[], [some (3 * 256)]⟩⟩ with
     | some (.ret true s) => some (s.k.trace, s.exitCode) | _ => none) =
     some ([.close 7, .waitpid 42 true, .close 5, .close 6], 3) := by decide
 
